@@ -157,6 +157,92 @@ pub fn check(sh: &Shared, c: &Case) -> Check {
     Ok(())
 }
 
+/// a small closed universe of terms in which every ordered pair is compared (catches slips
+/// that need coinciding operands, e.g. a symmetric statement whose two operands are equal)
+pub fn small_universe() -> Vec<D> {
+    let a = D::word("a");
+    let b = D::word("b");
+    let atoms = vec![a.clone(), b.clone()];
+    let mut u1: Vec<D> = vec![a.clone(), b.clone(), D::atom(IVar, "a"), D::placeholder(), D::interval(1)];
+    for k in ALL_KINDS {
+        if k.is_atom() {
+            continue;
+        }
+        if k == Neg {
+            for x in &atoms {
+                u1.push(D::node(k, vec![x.clone()]));
+            }
+        } else if k.is_binary_ordered() || k.is_sym_statement() {
+            for x in &atoms {
+                for y in &atoms {
+                    u1.push(D::node(k, vec![x.clone(), y.clone()]));
+                }
+            }
+        } else if k.is_image() {
+            for x in &atoms {
+                u1.push(D::image(k, 0, vec![x.clone()]));
+                u1.push(D::image(k, 1, vec![x.clone()]));
+                for y in &atoms {
+                    for i in 0..=2 {
+                        u1.push(D::image(k, i, vec![x.clone(), y.clone()]));
+                    }
+                }
+            }
+        } else {
+            for x in &atoms {
+                u1.push(D::node(k, vec![x.clone()]));
+                for y in &atoms {
+                    u1.push(D::node(k, vec![x.clone(), y.clone()]));
+                }
+            }
+            u1.push(D::node(k, vec![a.clone(), b.clone(), a.clone()]));
+        }
+    }
+    let sim = |x: &D, y: &D| D::node(Sim, vec![x.clone(), y.clone()]);
+    let s: Vec<D> = vec![
+        a.clone(), b.clone(), sim(&a, &b), sim(&b, &a), sim(&a, &a),
+        D::node(SetExt, vec![a.clone(), b.clone()]), D::node(SetExt, vec![b.clone(), a.clone()]), D::node(SetExt, vec![a.clone()]),
+        D::node(Conj, vec![a.clone(), b.clone()]), D::node(Product, vec![a.clone(), b.clone()]), D::node(Product, vec![b.clone(), a.clone()]),
+        D::node(Inh, vec![a.clone(), b.clone()]), D::node(EquConc, vec![b.clone(), a.clone()]),
+    ];
+    let mut u = u1;
+    for k in [Sim, Equ, EquConc, Inh, SetExt, Conj, Par, Product, DiffExt] {
+        for x in &s {
+            for y in &s {
+                if x.k.is_atom() && y.k.is_atom() {
+                    continue;
+                }
+                u.push(D::node(k, vec![x.clone(), y.clone()]));
+            }
+        }
+    }
+    u
+}
+
+pub fn check_universe(sh: &Shared, _c: &u8) -> Check {
+    let u = small_universe();
+    let canons: Vec<C> = u.iter().map(canon_d).collect();
+    // two independent builds of every member (different RandomStates, different routes)
+    let t1: Vec<Term> = u.iter().map(build_raw).collect();
+    let t2: Vec<Term> = u.iter().map(build_ctor).collect();
+    sh.class_n("universe/terms", u.len() as u64);
+    for i in 0..u.len() {
+        for j in 0..u.len() {
+            sh.eval();
+            let expected = canons[i] == canons[j];
+            let got = eq(&t1[i], &t2[j])?;
+            if got != expected {
+                let sig = if expected { "eq:false-negative" } else { "eq:false-positive" };
+                fail!(sig, "small universe: semantically {} terms compare {}\nx = {:?}\ny = {:?}", if expected { "equal" } else { "different" }, if got { "equal" } else { "unequal" }, u[i], u[j]);
+            }
+            if expected && i != j {
+                sh.nontrivial(fp(&(i, j)));
+            }
+        }
+    }
+    Ok(())
+}
+
 pub fn opts() -> gen::TermOpts {
     gen::TermOpts { weights: gen::W_SETS, depth: 4, size: 20, ..gen::TermOpts::main(0) }
 }
@@ -168,10 +254,18 @@ pub fn strategy() -> BoxedStrategy<Case> {
 }
 
 pub fn streams() -> Vec<Box<dyn AnyStream>> {
-    vec![Box::new(Stream::<Case> {
+    vec![
+        Box::new(Stream::<u8> {
+            name: "small-universe",
+            quick: 0,
+            thorough: 0,
+            source: Source::Enum(Box::new(|_| Box::new(vec![0u8].into_iter()))),
+            check: Box::new(check_universe),
+        }),
+        Box::new(Stream::<Case> {
         name: "pairs",
-        quick: 6_000,
-        thorough: 300_000,
+        quick: 12_000,
+        thorough: 800_000,
         source: Source::Gen(Box::new(strategy)),
         check: Box::new(check),
     })]
